@@ -57,6 +57,25 @@ func (c Case) goal() string {
 	return g
 }
 
+// mustReturn: the goals for which exhausting the step budget is "does not return" rather than a legitimately endless
+// search (append(L, a, L) with L partial has an infinite failing search; so may any relation over a partial argument):
+// every argument is ground when the goal is called, or the goal is phrase/2,3 with an unbound grammar body, which has
+// nothing to search (it used to call itself forever: repair 0122639).
+func mustReturn(c Case) bool {
+	if c.Pred == "phrase" && len(c.Args) >= 2 && c.Args[0] == "_" {
+		return true
+	}
+	for _, a := range c.Args {
+		if a == "LB" || a == "SB" || a == "S0" {
+			continue
+		}
+		if strings.ContainsAny(a, "_ABCDEFGHIJKLMNOPQRSTUVWXYZ") {
+			return false
+		}
+	}
+	return len(c.Pre) == 0
+}
+
 // boundShapes: argument shapes that are variables bound before the goal runs (a list whose spine goes through a
 // bound variable is not the same Go value as the list written out).
 const boundPrefix = "LB = [a|TB0], TB0 = [b], PB = [a|TB1], TB1 = [b|_], SB = \"ab\", FB = f(XB), XB = 1, "
@@ -223,6 +242,9 @@ func execute(c Case) Reply {
 		v, cl := classify(err, ioPreds[c.Pred])
 		if c.Pred == "throw" && strings.Contains(v, "non-error ball") {
 			v, cl = "", "user_ball" // the ball of throw/1 is the user's
+		}
+		if cl == "step_budget" && mustReturn(c) {
+			v = fmt.Sprintf("did not return within %d steps", stepBudget)
 		}
 		if v != "" {
 			return Reply{Violation: c.goal() + " " + v}
@@ -536,7 +558,7 @@ func TestProp(t *testing.T) {
 	defer func() { theWorker.stop() }()
 	procs := procedures()
 	r.Rule(fmt.Sprintf("every case runs in a worker process (memory limit %d MiB through debug.SetMemoryLimit and ulimit, scratch working directory, empty user_input, halt/0,1 replaced, step budget %d per call, watchdog %v per case): the death of the worker (fatal stack overflow, unrecovered panic, out of memory) or a call that does not return is the violation. (a) text: rapid-generated token soups from the lexer's classes (names, variables, numbers incl. 0' forms, brackets, operators, quotes with complete and truncated escapes, comments, truncated compounds such as 'X = [-', multi-byte and invalid UTF-8), cut at a drawn position, and raw byte strings, handed to Exec and to Query (3 answers, Close): the call returns and no returned error is the residue of a recovered Go panic (prefix 'panic:'). (b) goals: for every procedure reported by the VerifProcedures hook (%d registered; halt excluded) the goal p(t1..tn) with argument shapes drawn from %d shapes (unbound, atoms, '', [], integers incl. extremes, floats, compounds, proper/partial/improper lists, strings, code lists, stream aliases, an open stream term, callable and non-callable bodies, predicate indicators, pairs, option lists, operator specifiers and priorities, flags) - quick: sampled tuples; thorough: additionally the complete cross product for arity <= 2. A returned error must be an engine.Exception whose term is error(Formal, _) with Formal one of the ISO formal error terms (ISO type / domain atoms in the first argument), never a panic residue; raw OS errors (fs.PathError, errno) of the I/O predicates are about the environment and accepted. Non-trivial: (a) a text of >= 3 tokens, (b) a goal with >= 1 non-variable argument that reached the predicate. Distinct by case.", memLimit>>20, stepBudget, caseTimeout, len(procs), len(shapes)),
-		"the step budget hit counts as long-running, not as a violation", "cyclic terms and halt/0,1 are excluded by the property; which error is raised when several apply is not asserted")
+		"for program texts the step budget hit counts as long-running, not as a violation; for a goal whose arguments are all ground (and for phrase/2,3 with an unbound body) it is the violation 'does not return'", "cyclic terms and halt/0,1 are excluded by the property; which error is raised when several apply is not asserted")
 	r.Regress(t)
 	if r.Failed() {
 		return
